@@ -5,6 +5,7 @@ package logqlengine
 import (
 	"context"
 	"regexp"
+	"time"
 
 	"github.com/tdakkota/docker-logql/internal/iterators"
 	"github.com/tdakkota/docker-logql/internal/logql"
@@ -245,3 +246,30 @@ var _ iterators.Iterator[logstorage.Record] = (*verifCountingIter)(nil)
 
 // two matchers on the same label, empty bodies (matchers do not look at them)
 func VerifHarness_C01_Select_1_2_0_NoBody() { verifC01MaxBody = 0; verifC01Select(1, 2, 0) }
+
+// C02-O7: the window the engine hands to the storage for a log query.  A range
+// query (a step is given, as the CLI always does) asks for exactly
+// [start, end], also when start = end; only an instant query (no step,
+// start = end) looks back by the configured duration.
+func VerifHarness_C02_EngineWindow() {
+	start, end := vsymUint64("start"), vsymUint64("end")
+	vsymAssume(start >= 60e9)
+	vsymAssume(start <= end)
+	vsymAssume(end < 1<<62)
+	if vsymBool("point") {
+		end = start
+	}
+	step := []time.Duration{0, time.Second}[vsymChoice("step", 2)]
+	q := &verifQuerier{}
+	e := verifEngine(q)
+	_, err := e.evalLogExpr(context.Background(), &logql.LogExpr{Sel: logql.Selector{Matchers: []logql.LabelMatcher{{Label: "a", Op: logql.OpEq, Value: "x"}}}},
+		EvalParams{Start: otelstorage.Timestamp(start), End: otelstorage.Timestamp(end), Step: step, Limit: -1})
+	vsymAssert(err == nil && len(q.starts) == 1, "a log query selects once")
+	vsymAssert(uint64(q.ends[0]) == end, "the storage is asked up to the end of the query window")
+	if step == 0 && start == end {
+		vsymAssert(uint64(q.starts[0]) == start-30e9, "an instant query looks back by the default 30s")
+	} else {
+		vsymAssert(uint64(q.starts[0]) == start, "a range query asks the storage from the start of its window, never a shifted one")
+	}
+	vsymReach("C02_engine_window")
+}
